@@ -249,6 +249,17 @@ def check_expectation_values(ctx):
     ctx.check(not tampered, R2, fi.key + ":reported-as-computed", "values and covariances are reported as computed", f"`{short(tampered[0]) if tampered else ''}` overwrites entries of the computed statistics before they are returned: e.g. snapping with np.isclose (absolute tolerance 1e-8) zeroes genuine covariances of order c_i*c_j/N", f"{fi.module.relpath}:{tampered[0].lineno}" if tampered else fi)
 
 
+def check_positions_not_by_equality(ctx):
+    """Operators may list equal terms more than once; the position of a term in the value / correlation arrays is its
+    position in the list. `terms.index(term)` finds the *first equal* term, so the entries of a repeated term are never
+    written (or written into the first one's slot)."""
+    repo = ctx.repo
+    for key in (f"{MS}:Measurements.get_expectation_values", f"{PA}:get_parities_from_measurements"):
+        fi = repo.func(key)
+        hits = [c for c in body_walk(fi.node) if isinstance(c, ast.Call) and isinstance(c.func, ast.Attribute) and c.func.attr == "index" and len(c.args) == 1 and "term" in norm(c.func.value).lower()]
+        ctx.check(not hits, R1, fi.key + ":positions", "term positions come from enumeration, not from equality lookups", f"`{short(hits[0]) if hits else ''}` looks a term's position up by equality: for an operator with a repeated term (Z0 + Z1 + Z0) the later copy resolves to the first one's position, so its correlations / covariances stay unset", f"{fi.module.relpath}:{hits[0].lineno}" if hits else fi)
+
+
 def check_frequencies(ctx):
     repo = ctx.repo
     fi = repo.func(f"{MS}:get_expectation_value_from_frequencies")
@@ -453,6 +464,7 @@ def check_purity(ctx):
 
 
 def run(ctx):
+    check_positions_not_by_equality(ctx)
     check_expectation_values(ctx)
     check_frequencies(ctx)
     check_counts(ctx)
